@@ -644,17 +644,22 @@ func (ma *ModuleAnalyzer) walkNode(node *parser.Node, visitor func(*parser.Node)
 // walkStatements visits every node reachable through the statement lists of the AST
 // (Children, Body, Orelse, Handlers, Finalbody), so that imports in else, except and
 // finally blocks are seen as well. typeChecking tells the visitor whether the node lies
-// in the body of an "if TYPE_CHECKING:" block; the else branch of such a block runs at
-// runtime and is therefore not marked.
+// in a block that only type checkers see: the body of an "if TYPE_CHECKING:" block (its
+// else branch runs at runtime and is not marked) or the elif/else branches of a condition
+// like "if not TYPE_CHECKING:".
 func (ma *ModuleAnalyzer) walkStatements(node *parser.Node, typeChecking bool, visitor func(*parser.Node, bool)) {
 	if node == nil {
 		return
 	}
 	visitor(node, typeChecking)
 
-	bodyTypeChecking := typeChecking
-	if (node.Type == parser.NodeIf || node.Type == parser.NodeElifClause) && ma.isTypeCheckingCondition(node.Test) {
-		bodyTypeChecking = true
+	bodyTypeChecking, orelseTypeChecking := typeChecking, typeChecking
+	if node.Type == parser.NodeIf || node.Type == parser.NodeElifClause {
+		if ma.isTypeCheckingCondition(node.Test) {
+			bodyTypeChecking = true
+		} else if ma.isNotTypeCheckingCondition(node.Test) {
+			orelseTypeChecking = true
+		}
 	}
 
 	for _, child := range node.Children {
@@ -664,7 +669,7 @@ func (ma *ModuleAnalyzer) walkStatements(node *parser.Node, typeChecking bool, v
 		ma.walkStatements(child, bodyTypeChecking, visitor)
 	}
 	for _, child := range node.Orelse {
-		ma.walkStatements(child, typeChecking, visitor)
+		ma.walkStatements(child, orelseTypeChecking, visitor)
 	}
 	for _, child := range node.Handlers {
 		ma.walkStatements(child, typeChecking, visitor)
@@ -761,34 +766,113 @@ func (ma *ModuleAnalyzer) estimateLineCount(filePath string) int {
 	return strings.Count(string(content), "\n") + 1
 }
 
-// isTypeCheckingCondition checks if an expression is a TYPE_CHECKING condition
+// conditionValue is what is known about the truth value of a condition at run time,
+// where TYPE_CHECKING is False and nothing is known about any other name.
+type conditionValue int
+
+const (
+	conditionUnknown conditionValue = iota
+	conditionFalse
+	conditionTrue
+)
+
+func conditionOf(value bool) conditionValue {
+	if value {
+		return conditionTrue
+	}
+	return conditionFalse
+}
+
+// isTypeCheckingCondition checks if an expression is a TYPE_CHECKING condition: it
+// mentions TYPE_CHECKING and is false at run time whatever the other names are, e.g.
+// "TYPE_CHECKING", "typing.TYPE_CHECKING", "TYPE_CHECKING and sys.version_info >= (3, 9)".
+// "TYPE_CHECKING or X", "not TYPE_CHECKING" and "TYPE_CHECKING == False" are not: the
+// block they guard can run.
 func (ma *ModuleAnalyzer) isTypeCheckingCondition(expr *parser.Node) bool {
+	return ma.containsTypeChecking(expr) && ma.runtimeValue(expr) == conditionFalse
+}
+
+// isNotTypeCheckingCondition checks if an expression is the negation of a TYPE_CHECKING
+// condition: it mentions TYPE_CHECKING and is true at run time whatever the other names
+// are ("not TYPE_CHECKING"), so that only type checkers see the elif/else branches.
+func (ma *ModuleAnalyzer) isNotTypeCheckingCondition(expr *parser.Node) bool {
+	return ma.containsTypeChecking(expr) && ma.runtimeValue(expr) == conditionTrue
+}
+
+// runtimeValue evaluates a condition with TYPE_CHECKING = False in three-valued logic
+func (ma *ModuleAnalyzer) runtimeValue(expr *parser.Node) conditionValue {
 	if expr == nil {
-		return false
+		return conditionUnknown
 	}
 
-	// Handle simple case: just TYPE_CHECKING
-	if expr.Type == parser.NodeName && expr.Name == "TYPE_CHECKING" {
-		return true
+	switch expr.Type {
+	case parser.NodeName, parser.NodeAttribute:
+		// TYPE_CHECKING, typing.TYPE_CHECKING
+		if expr.Name == "TYPE_CHECKING" {
+			return conditionFalse
+		}
+
+	case parser.NodeConstant:
+		if value, ok := expr.Value.(bool); ok {
+			return conditionOf(value)
+		}
+
+	case "parenthesized_expression":
+		return ma.runtimeValue(operandOf(expr))
+
+	case "not_operator":
+		switch ma.runtimeValue(operandOf(expr)) {
+		case conditionFalse:
+			return conditionTrue
+		case conditionTrue:
+			return conditionFalse
+		}
+
+	case parser.NodeBoolOp:
+		if len(expr.Children) != 2 || (expr.Op != "and" && expr.Op != "or") {
+			return conditionUnknown
+		}
+		left, right := ma.runtimeValue(expr.Children[0]), ma.runtimeValue(expr.Children[1])
+		// "and" is decided by a false operand, "or" by a true one
+		deciding := conditionOf(expr.Op == "or")
+		if left == deciding || right == deciding {
+			return deciding
+		}
+		if left != conditionUnknown && right != conditionUnknown {
+			return conditionOf(expr.Op == "and")
+		}
+
+	case parser.NodeCompare:
+		// a single comparison of two known truth values
+		if expr.Left == nil || len(expr.Children) != 1 {
+			return conditionUnknown
+		}
+		left, right := ma.runtimeValue(expr.Left), ma.runtimeValue(expr.Children[0])
+		if left == conditionUnknown || right == conditionUnknown {
+			return conditionUnknown
+		}
+		switch expr.Op {
+		case "==", "is":
+			return conditionOf(left == right)
+		case "!=", "is not":
+			return conditionOf(left != right)
+		}
 	}
 
-	// Handle attribute access: typing.TYPE_CHECKING
-	if expr.Type == parser.NodeAttribute && expr.Name == "TYPE_CHECKING" {
-		return true
-	}
+	return conditionUnknown
+}
 
-	// Handle binary operations that include TYPE_CHECKING
-	// e.g., "TYPE_CHECKING and sys.version_info >= (3, 9)"
-	if expr.Type == parser.NodeBoolOp {
-		return ma.containsTypeChecking(expr)
+// operandOf returns the operand of "(x)" or "not x", which the parser builds as generic
+// nodes holding the tokens and the operand
+func operandOf(node *parser.Node) *parser.Node {
+	for _, child := range node.Children {
+		switch child.Type {
+		case "(", ")", "not":
+		default:
+			return child
+		}
 	}
-
-	// Handle comparisons and other complex expressions
-	if expr.Type == parser.NodeCompare {
-		return ma.containsTypeChecking(expr)
-	}
-
-	return false
+	return nil
 }
 
 // containsTypeChecking recursively checks if an expression contains TYPE_CHECKING
